@@ -705,8 +705,6 @@ OPEN_REWRITES = {
     'R03-2': 'forward_with_joint_poses as a table of (offset, axis, angle) and a loop filling [Pose; 6]: R03.1/R03.2 read the six chained products',
     'R04-3': 'near-normaliser as a value-returning fn applied through array::from_fn: role and call sites are read as fn(&mut f64, f64)',
     'R06-2': 'normalisation of J1..J5 in a helper returning Option<Joints>: R01.4/R02.2 read the in-place loop',
-    'R06-4': 'YAML/URDF loaders destructure and rebuild the sign array, dof by match: R06.5, R19.3, R20.4 read the in-place assignment',
-    'R07-3': 'URDF limits through a NO_LIMITS constant and destructuring assignment: R20.2/R20.4/R06.5 read the field stores',
     'R12-1': 'pose list built from an anchor list walked with windows(2): R12.5 reads the push sites of LAND / TRACE / PARK',
     'R12-2': 'flags of a Cartesian extension by split_last + extend, RRT gap by find_map: R12.5 reads the per-item flag choice',
     'R13-2': 'ancestor walk by iter::successors, path assembly by rev().chain().collect(), orientation tested on the other tree: R13.3 reads the two walks, reverse and append',
@@ -716,5 +714,4 @@ OPEN_REWRITES = {
     'R20-2': 'collect_joints with a first_child_named helper, early continue for non-joints, JointData built once from temporaries: R20.2/R20.5/R20.7 read the in-place form',
     'R20-3': 'populate_opw_parameters over names.iter().enumerate() with a zero-based match and unreachable!(): R20.4 reads the arms of `match j + 1`',
     'R20-4': 'convert_to_map through the HashMap entry() API, to_robot through parameters()/constraints(): R20.3 and R20.2 read get/insert and the direct Constraints::new',
-    'R19-2': 'from_yaml_file blocks J6 by an array pattern match, dof from a match on the (top-level, nested) pair: R06.5 reads the in-place assignment',
 }
